@@ -534,7 +534,7 @@ var c03Ctxs = []c03Ctx{
 }
 
 // contexts used for the non-core forms and the non-basic classes
-var c03FewCtxs = map[string]bool{"define": true, "return": true, "if-else": true, "closure": true, "exprstmt": true, "typeswitch": true, "defer-direct": true, "go-direct": true}
+var c03FewCtxs = map[string]bool{"define": true, "return": true, "closure": true, "exprstmt": true, "typeswitch": true, "defer-direct": true, "go-direct": true}
 
 var c03ImportRe = map[string]*regexp.Regexp{
 	"unsafe": regexp.MustCompile(`\bunsafe\.`),
